@@ -82,7 +82,8 @@ def check(prog: Program, tier: str) -> Result:
     _r12_2(prog, res)
     _r12_3(prog, res)
     _r12_4(prog, res)
-    res.floors.update({"R12.1": 18, "R12.2": 11, "R12.3": 3, "R12.4": 8})
+    _r12_5(prog, res)
+    res.floors.update({"R12.1": 18, "R12.2": 11, "R12.3": 3, "R12.4": 8, "R12.5": 2})
     return res
 
 
@@ -402,10 +403,61 @@ def _r12_4(prog: Program, res: Result) -> None:
     res.decide(ok, "R12.4", fn6.loc(), fn6.fq, "set template", "every element matches one of the alternatives" if ok else "set templates changed meaning")
 
 
+# ------------------------------------------------------------------------------------------------ R12.5
+def _r12_5(prog: Program, res: Result) -> None:
+    """Search completeness of the list matcher: inside the loop over the quantifier expansions a `return` may only
+    hand back a result whose truthiness was established on the path - returning a possibly empty merge from inside
+    the loop gives up at the first expansion whose elements match one by one but bind a repeated wildcard
+    inconsistently, although a later expansion matches (f({{...*}}, {{x}}, {{x}}, {{...*}}) on f(1, 2, 2, 3))."""
+    fn = prog.func("core", "_match_list")
+    pa = PathAnalysis(prog, fn)
+    from ..defuse import bindings
+    binds = bindings(fn)
+    loops = []
+    for n in walk_own(fn.node):
+        if not isinstance(n, ast.For):
+            continue
+        src = n.iter
+        if isinstance(src, ast.Name):
+            defs = [v for (_s, v) in binds.get(src.id, []) if v is not None]
+            if len(defs) == 1:
+                src = defs[0]
+        if isinstance(src, ast.Call) and (prog.dotted(src.func) or "").endswith("_iter_template_permutations"):
+            loops.append(n)
+    if not loops:
+        res.undecided("R12.5", fn.loc(), fn.fq, "loop over _iter_template_permutations", "no such loop found: search written in an unrecognised way")
+        return
+    for loop in loops:
+        inside = [r for r in ast.walk(loop) if isinstance(r, ast.Return)]
+        for r in inside:
+            text = norm(r.value) if r.value is not None else "None"
+            worlds = pa.worlds_at(r)
+            if isinstance(r.value, ast.Name):
+                ok = bool(worlds) and pa.holds_at(r, lambda w, v=r.value: pa.formula(v, w))[0]
+            else:
+                ok = False
+                # a literal non-empty tuple / constant truthy value is a success by construction
+                if isinstance(r.value, ast.Tuple) and r.value.elts:
+                    ok = True
+            res.decide(ok, "R12.5", fn.loc(r), fn.fq, f"return {text} inside the expansion loop",
+                       "returned only after it was tested to be a successful (non-empty) match" if ok else
+                       "the search returns from inside the loop over quantifier expansions a value that may be the empty (failed) match: "
+                       "later expansions are never tried, valid matches with repeated wildcards are lost")
+        tail = fn.node.body[-1]
+        ok = isinstance(tail, ast.Return) and norm(tail.value) == "()"
+        res.decide(ok, "R12.5", fn.loc(tail), fn.fq, "result after the loop is exhausted", "no match" if ok else "falling out of the expansion loop no longer means 'no match'")
+
+
 # ---------------------------------------------------------------------------------------------- self-test
 from ..selftest import Variant  # noqa: E402
 
 VARIANTS = [
+    Variant("return-unchecked-merge-from-expansion-loop", "FIRE", "core",
+            "        merged = merge_matches(permutation, matches)\n        if merged:\n            return merged\n",
+            "        return merge_matches(permutation, matches)\n", "R12.5"),
+    Variant("inline-permutations-rename-merged", "SILENT", "core",
+            "    permutations = _iter_template_permutations(template, len(nodes))\n\n    for permutation in permutations:\n        matches = (\n            match_template(child, template_child, ignore=ignore)\n            for child, template_child in zip(nodes, permutation)\n        )\n        merged = merge_matches(permutation, matches)\n        if merged:\n            return merged\n",
+            "    for permutation in _iter_template_permutations(template, len(nodes)):\n        matches = [\n            match_template(child, template_child, ignore=ignore)\n            for child, template_child in zip(nodes, permutation)\n        ]\n        result = merge_matches(permutation, matches)\n        if not result:\n            continue\n        return result\n"),
     Variant("zero-or-one-needs-one", "FIRE", "core", "            node_counts[(i, node.template)] = (0, 1)\n", "            node_counts[(i, node.template)] = (1, 1)\n", "R12.1"),
     Variant("star-plus-regexes-swapped", "FIRE", "core",
             "        **{name[2:-3]: ZeroOrMany(object) for name in re.findall(r\"\\{\\{\\w+\\*\\}\\}\", source)},\n        **{name[2:-3]: OneOrMany(object) for name in re.findall(r\"\\{\\{\\w+\\+\\}\\}\", source)},",
